@@ -13,7 +13,7 @@ PREFIXES = ["@{exec_path}", "@{sh_path}", "@{coreutils_path}", "@{open_path}", "
             "/var", "/boot", "/home", "@{HOME}", "@{user_cache_dirs}", "@{user_config_dirs}", "@{user_share_dirs}", "/tmp",
             "@{tmp}", "/dev/shm", "@{run}", "@{sys}", "@{PROC}", "/dev"]
 UNKNOWN_PREFIXES = ["/weird", "/Weird", "/srv", "/usr/lib", "/mnt"]
-TAILS = ["/a", "/A", "/{a,b}", "/{a,{b,c}}", "/*", "/**", "/[0-9]*", "/x#y", "/foo.d/", "/b/", "/b/c", "/a-b_c.d", "/B/c", "/ab", "/aB", "/+pci:*", "/c+d=e"]
+TAILS = ["/a", "/A", "/{a,b}", "/{a,{b,c}}", "/*", "/**", "/[0-9]*", "/x#y", "/foo.d/", "/b/", "/b/c", "/a-b_c.d", "/B/c", "/ab", "/aB", "/+pci:*", "/c+d=e", "/a,b", "/c,d/"]
 CAPS = ["audit_control", "chown", "dac_override", "dac_read_search", "fowner", "kill", "mknod", "net_admin", "net_bind_service",
         "net_raw", "setgid", "setuid", "sys_admin", "sys_chroot", "sys_nice", "sys_ptrace", "sys_resource", "syslog"]
 DOMAINS = ["inet", "inet6", "unix", "netlink", "packet", "bluetooth"]
